@@ -27,6 +27,7 @@ RULE = {
     "thorough": "16 shards x 2200 families, nesting <= 4.",
 }
 ASSUMPTIONS = [
+    "a value tree is consistent with its declaration iff the reference model parses its own reference encoding back to the same tree",
     "model.encode is the meaning of 'in-order concatenation of each field's encoding placed at its declared position'",
     "value trees whose positions overlap are not consistent assignments (C01 judges overlap) and are skipped",
     "callbacks that inspect the raw buffer (sizes from len(raw), until-conditions peeking at raw/offset) are left out: with them consistency "
@@ -77,6 +78,13 @@ def judge_tree(run, bench, pv, rng, mon):
         run.count("tree_skipped_%s" % st)
         return
     want = er.data
+    # "values that satisfy its own declaration": the reference semantics themselves must round-trip the
+    # tree (e.g. a read-to-end field followed by a field positioned beyond it is not a consistent
+    # assignment: serializing adds fill bytes that the read-to-end field would swallow)
+    st0, mr0 = harness.model_parse(fam, want, 0)
+    if st0 != "ok" or mr0.value != pv:
+        run.count("tree_not_self_consistent_skipped")
+        return
     want_inserts = [(p, d) for (p, d, _) in er.fragments.inserts if d]
     tree_stats(run, fam, pv)
     shape = common.stable_hash(tree_shape(pv))
@@ -200,3 +208,17 @@ def run(run):
                 break
         for v in mon.violations[:3]:
             run.violation("fragment monitor during pack(): " + v["what"], v, None)
+
+
+def replay(run, rec):
+    raw = rec["witness"]
+    if "fam" not in raw:
+        f2_probe(run)
+        return
+    fam = common.from_json(raw["fam"])
+    pv = model.val_from_json(raw["values"])
+    d = common.scratch_dir("bvf_replay_")
+    bench = harness.Bench(fam, VARIANTS, d, instrument=())
+    bench.skeleton = "replay"
+    with monitors.fragments_monitor() as mon:
+        judge_tree(run, bench, pv, common.rng_for(0, "replay"), mon)
